@@ -111,7 +111,9 @@ pub fn vm_constraints(v: &Verified) -> Vec<Cons> {
         out.push(Cons::After(*n as u32));
     }
     for n in &v.trace.csv {
-        out.push(Cons::Older(*n as u32));
+        // the interpreter reports a relative::LockTime, which only has the bits BIP-68/112 give a
+        // meaning to: the executed operand is compared by that meaning
+        out.push(Cons::Older((*n as u32) & ((1 << 22) | 0xffff)));
     }
     out.sort();
     out
